@@ -13,6 +13,16 @@ fn k_c10_ring(depth: u8, region: u8) {
   p_c10_ring(depth, r);
 }
 
+/// same as k_c10_ring, the region cut in three by the thirds of the whole index range (any partition is exhaustive)
+fn k_c10_ring_part(depth: u8, region: u8, part: u8) {
+  let r: u64 = kani::any();
+  kani::assume(c10_region_ok(depth, r, region));
+  let third = spec_n_hash(depth) / 3;
+  kani::assume(r >= third * part as u64 && (part == 2 || r < third * (part as u64 + 1)));
+  kani::cover!(true, "region non empty");
+  p_c10_ring(depth, r);
+}
+
 fn k_c10_nested(depth: u8, bclass: u8) {
   let h: u64 = kani::any();
   kani::assume(h < spec_n_hash(depth) && (h >> (2 * depth as u32)) / 4 == bclass as u64);
